@@ -162,6 +162,34 @@ func hangInCodeUnderTest(stacks string) (bool, string) {
 	return false, ""
 }
 
+// blockedInCodeUnderTest looks for a goroutine that is blocked on a lock or semaphore with its innermost frame
+// (below the runtime, sync and the simulator's own lock wrappers) in oxy proper: a lock that the code under test
+// waits for and nobody will release (a self-deadlock, for instance).
+func blockedInCodeUnderTest(stacks string) (bool, string) {
+	for _, block := range strings.Split(stacks, "\n\n") {
+		lines := strings.Split(block, "\n")
+		if len(lines) < 2 || !strings.HasPrefix(lines[0], "goroutine ") {
+			continue
+		}
+		if !(strings.Contains(lines[0], "[sync.") || strings.Contains(lines[0], "[semacquire")) {
+			continue
+		}
+		for _, fn := range lines[1:] {
+			if strings.HasPrefix(fn, "\t") || strings.HasPrefix(fn, "created by") {
+				continue
+			}
+			if strings.HasPrefix(fn, "sync.") || strings.HasPrefix(fn, "runtime.") || strings.HasPrefix(fn, "internal/") || strings.Contains(fn, "/zzverif/simrt.") {
+				continue
+			}
+			if strings.HasPrefix(fn, "github.com/vulcand/oxy/v2/") && !strings.Contains(fn, "/zzverif/") {
+				return true, fn
+			}
+			break
+		}
+	}
+	return false, ""
+}
+
 // processCPU is the processor time (user + system) this process has used so far.
 //
 //go:norace
@@ -171,6 +199,30 @@ func processCPU() time.Duration {
 		return 0
 	}
 	return time.Duration(ru.Utime.Nano() + ru.Stime.Nano())
+}
+
+// somebodyCouldRun reports whether a goroutine other than the caller is running or ready to run.
+func somebodyCouldRun() bool {
+	buf := make([]byte, 1<<20)
+	n := runtime.Stack(buf, true)
+	first := true
+	for _, block := range strings.Split(string(buf[:n]), "\n\n") {
+		if !strings.HasPrefix(block, "goroutine ") {
+			continue
+		}
+		if first { // the caller itself
+			first = false
+			continue
+		}
+		head := block
+		if i := strings.IndexByte(head, '\n'); i >= 0 {
+			head = head[:i]
+		}
+		if strings.Contains(head, "[running") || strings.Contains(head, "[runnable") {
+			return true
+		}
+	}
+	return false
 }
 
 func startWatchdog() {
@@ -201,9 +253,10 @@ func startWatchdog() {
 					last = p
 				}
 				if idle >= WatchdogSeconds {
-					// a task that spins burns processor time; a process that got next to none in all that time is
-					// being starved by the machine, not stuck: give it more wall-clock time (bounded)
-					if used := processCPU() - cpuAtIdleStart; used < time.Duration(WatchdogSeconds)*time.Second/4 && extensions < 20 {
+					// A task that spins burns processor time, and a deadlock has no goroutine that could run. A process
+					// that has a goroutine ready to run and yet got next to no processor time in all that time is
+					// being starved by the machine, not stuck: give it more wall-clock time (bounded).
+					if used := processCPU() - cpuAtIdleStart; used < time.Duration(WatchdogSeconds)*time.Second/4 && extensions < 20 && somebodyCouldRun() {
 						extensions++
 						idle = WatchdogSeconds / 2
 						continue
@@ -213,6 +266,13 @@ func startWatchdog() {
 					if under, fn := hangInCodeUnderTest(string(buf[:n])); under {
 						fmt.Fprintf(os.Stderr, "VERIF-LIVELOCK %v\n", LivelockInfo.Load())
 						fmt.Fprintf(os.Stderr, "VERIF-DETAIL kind=livelock: a task ran for %d s inside %s without reaching a yield point or returning\n", idle, fn)
+						fmt.Fprintf(os.Stderr, "VERIF-FAIL kind=livelock\n")
+						os.Stderr.Write(buf[:n])
+						os.Exit(3)
+					}
+					if under, fn := blockedInCodeUnderTest(string(buf[:n])); under {
+						fmt.Fprintf(os.Stderr, "VERIF-LIVELOCK %v\n", LivelockInfo.Load())
+						fmt.Fprintf(os.Stderr, "VERIF-DETAIL kind=livelock: for %d s a goroutine has been waiting inside %s for a lock that nobody is going to release\n", idle, fn)
 						fmt.Fprintf(os.Stderr, "VERIF-FAIL kind=livelock\n")
 						os.Stderr.Write(buf[:n])
 						os.Exit(3)
